@@ -12,7 +12,7 @@ from common import Finding, log, seed
 from props import UnitResult
 from tv_units import NPROC, MAX_REPLAYS, save_replay
 
-WORKERS = {"point": jitsmt.work_point, "fslice": jitsmt.work_fslice}
+WORKERS = {"point": jitsmt.work_point, "fslice": jitsmt.work_fslice, "interval": jitsmt.work_interval}
 
 
 def norm(words):
@@ -25,9 +25,10 @@ def norm(words):
 
 
 class JitSmtUnit:
-    def __init__(self, kinds, prop_prefix="c02"):
+    def __init__(self, kinds, name_filter=None):
         self.kinds = kinds
-        self.name = "ex:" + "+".join(kinds)
+        self.name_filter = name_filter
+        self.name = "ex:" + "+".join(kinds) + (":choices" if name_filter else "")
 
     def run(self, prop, tier, only=None):
         r = UnitResult(self.name)
@@ -53,6 +54,8 @@ class JitSmtUnit:
         cand = []
         for kind in self.kinds:
             scs = jitgen.scenarios(kind, tier)
+            if self.name_filter:
+                scs = [s for s in scs if any(k in s.name for k in self.name_filter)]
             if only:
                 scs = [s for s in scs if only in s.name] or scs
             for p in jitgen.assemble(scs):
@@ -63,6 +66,10 @@ class JitSmtUnit:
                 runs = jitsmt.real_runs_fslice(scs, 2 if tier == "quick" else 6)
                 for s in scs:
                     items.append((s, [(v, o) for v, o, _, _, _ in runs.get(s.sid, [])]))
+            elif kind == "interval":
+                runs = jitsmt.real_runs_interval(scs, 3 if tier == "quick" else 8)
+                for s in scs:
+                    items.append((s, [(v, o, t) for v, o, t, _, _ in runs.get(s.sid, [])]))
             else:
                 runs = jitsmt.real_runs(scs, kind, 4 if tier == "quick" else 12)
                 for s in scs:
@@ -116,6 +123,8 @@ class JitSmtUnit:
             return
         model = x.get("model") or {}
         vec = [model.get(i, 0x3F800000) for i in x.get("inputs", [])]
+        if kind == "interval":
+            return self.replay_interval(prop, sc, x, r, seen, key, vec)
         if kind == "fslice":
             n = x.get("size", 8) or 8
             cols = [vec[i * n:(i + 1) * n] for i in range(sc.nvars)]
@@ -142,4 +151,40 @@ class JitSmtUnit:
                     kind, " ; ".join(sc.ops), json.dumps(bad)), {}, path))
         else:
             r.inconclusive.append("scenario %s: solver reports a counterexample (%s) that the native JIT-vs-interpreter replay does not show" % (
+                sc.name, ["0x%08x" % v for v in vec]))
+
+    def replay_interval(self, prop, sc, x, r, seen, key, vec):
+        """Native replay: the real JIT interval result must be undecided or
+        contain the interpreter's interval result (which the Kani harnesses
+        prove to enclose every point value); traces must agree or be Both."""
+        import struct
+
+        def fl(w):
+            return struct.unpack("<f", struct.pack("<I", w))[0]
+
+        runs = jitsmt.real_runs_vec(sc, "interval", [vec]) if vec else []
+        runs += jitsmt.real_runs_interval([sc], 16).get(sc.sid, [])
+        bad = None
+        for v, out, tr, vm_out, vm_tr in runs:
+            for i in range(0, len(out), 2):
+                jl, ju, kl, ku = fl(out[i]), fl(out[i + 1]), fl(vm_out[i]), fl(vm_out[i + 1])
+                jn, kn = jl != jl or ju != ju, kl != kl or ku != ku
+                if not (jn or (not kn and jl <= kl and ku <= ju)):
+                    bad = {"vars": ["0x%08x" % w for w in v], "jit": [jl, ju], "interpreter": [kl, ku], "jit_trace": tr, "vm_trace": vm_tr}
+            if not bad and tr != vm_tr and tr not in (None, "none") and vm_tr not in (None, "none"):
+                if any(a != b and a != "3" for a, b in zip(tr, vm_tr)):
+                    bad = {"vars": ["0x%08x" % w for w in v], "jit_trace": tr, "vm_trace": vm_tr}
+            if not bad and (tr in (None, "none")) != (vm_tr in (None, "none")) and tr not in (None, "none"):
+                bad = {"vars": ["0x%08x" % w for w in v], "jit_trace": tr, "vm_trace": vm_tr}
+            if bad:
+                break
+        if bad:
+            path = save_replay(prop, "jit_interval_%s" % sc.name, {"engine": "ex", "kind": "interval", "scenario": sc.name, "tape": sc.ops,
+                                                                     "request": sc.req(), "first_bad": bad})
+            if key not in seen:
+                seen.add(key)
+                r.findings.append(Finding(prop, key, "JIT interval result for tape %s is narrower than the interpreter's (not a sound enclosure): %s" % (
+                    " ; ".join(sc.ops), json.dumps(bad)), {}, path))
+        else:
+            r.inconclusive.append("scenario %s: solver reports a counterexample (%s) that the native replay does not show" % (
                 sc.name, ["0x%08x" % v for v in vec]))
